@@ -52,6 +52,12 @@ struct RawArc {
 }
 
 fn alloc_of(p: *const P) -> usize {
+    // the address of a destroyed value may have been handed out again: prefer the live allocation
+    for a in 1..MAXA {
+        if ADDR[a].load(SeqCst) == p as usize && p as usize != 0 && VDROPS[a].load(SeqCst) == 0 {
+            return a;
+        }
+    }
     for a in 1..MAXA {
         if ADDR[a].load(SeqCst) == p as usize && p as usize != 0 {
             return a;
